@@ -26,6 +26,13 @@ ASSUMPTIONS = ["tasks take < 10 simulated seconds (flush's own per-future wait)"
 
 def generate(seed, tier):
     r = random.Random(seed)
+    if r.random() < 0.06:
+        # arm "own-code": the whole agent, tracing live. A tracepoint of the service names a file and line that also exist
+        # in the agent's own task module (locations match on the base name: '__init__.py'), and the application hands
+        # work to the task handler on its own, traced, thread (register / unregister) - the hand-over of the snapshot
+        # taken there runs into the hand-over it interrupts
+        return {"arm": "own-code", "line_pick": r.randrange(1000), "n": r.choice((1, 2, 3)),
+                "knobs": dict(common.draw_knobs(r, stall_p=0.0), trace_self=True)}
     nthreads = r.choice((1, 1, 2, 3))
     sid = 0
     threads = []
@@ -56,6 +63,10 @@ def generate(seed, tier):
 
 
 def shrink_candidates(s):
+    if s.get("arm") == "own-code":
+        if s["n"] > 1:
+            yield dict(s, n=s["n"] - 1)
+        return
     for ti, ops in enumerate(s["threads"]):
         for cand in common.drop_one(ops):
             if not any(o["op"] == "flush" for t2 in (s["threads"][:ti] + [cand] + s["threads"][ti + 1:]) for o in t2):
@@ -91,7 +102,56 @@ class _RawFailBase(BaseException):
     pass
 
 
+def _own_code(s, ch):
+    from simkit import world
+    viol = []
+    info = {"hits": 0}
+
+    def main(k):
+        w = world.World(k, python_plugin=False)
+        w.start()
+        k.settle()
+        import inspect
+        import deep.task as dt
+        src, first = inspect.getsourcelines(dt.TaskHandler.submit_task)
+        body = [first + i for i, ln in enumerate(src) if ln.strip() and not ln.strip().startswith(("#", '"""', ":", "def "))
+                and i > 8]
+        line = body[s["line_pick"] % len(body)]
+        info["line"] = line
+        args = {"fire_count": "-1", "fire_period": "0"}
+        w.service.set_config([w.service.make_tp("tpOWN", os.path.basename(dt.__file__), line, args, [])], "h1")
+        w.deep.poll.poll()
+        common.wait_until(k, lambda: len(w.handler._tp_config) > 0, 60)
+        done = []
+
+        def app():
+            for i in range(s["n"]):
+                h = w.deep.register_tracepoint("nowhere.py", 1 + i, {}, [])
+                h.unregister()
+                done.append(i)
+        t = shims.SimThread(target=app, name="app0")
+        t.start()
+        t.join()
+        common.wait_delivery(k, w, 60)
+        info["hits"] = len(w.pushed)
+        if len(done) != s["n"]:
+            viol.append(V("own-code:application-call-did-not-return", "%d of %d register/unregister rounds" % (len(done), s["n"])))
+        sent = {sn.ID.hex() for (_, _, sn, _) in w.service.snapshots}
+        for (_, th, es) in w.pushed:
+            if format(es.id, "032x") not in sent:
+                viol.append(V("own-code:handed-over-never-sent", "snapshot of %s pushed by %s" % (es.tracepoint.id, th)))
+                break
+        w.deep.shutdown()
+        w.close()
+
+    k = common.run_in_kernel(ch, s["knobs"], main)
+    k.probe("own_code_hits", info["hits"])
+    return common.result(k, viol, key=repr(("own-code", info.get("line"), s["n"])))
+
+
 def execute(scenario, ch):
+    if scenario.get("arm") == "own-code":
+        return _own_code(scenario, ch)
     hist = {"accept": {}, "flush": [], "convert": {}, "ran": {}, "post": {}}
     viol = []
 
